@@ -265,11 +265,20 @@ func ParseParameters(query string) []oid.Oid {
 		// SELECT * FROM users WHERE id = ?
 		if match[1] == "" {
 			parameters = append(parameters, 0)
+			continue
 		}
 
-		position, _ := strconv.Atoi(match[1]) //nolint:errcheck
+		// NOTE: positions which could not be represented inside the protocol
+		// (the number of parameters is send as a 16-bit integer) are ignored.
+		position, err := strconv.Atoi(match[1])
+		if err != nil || position > buffer.MaxPreparedStatementArgs {
+			continue
+		}
+
 		if position > len(parameters) {
-			parameters = parameters[:position]
+			grown := make([]oid.Oid, position)
+			copy(grown, parameters)
+			parameters = grown
 		}
 	}
 
